@@ -1,0 +1,50 @@
+//go:build verif
+
+// Package verifhook provides schedule-control points for external
+// verification harnesses. Only active with build tag "verif".
+//
+// Environment variable VERIF_POINTS holds a comma separated list of
+// NAME=ACTION entries:
+//
+//	NAME=gate:FILE  create FILE.at, then block until FILE has disappeared
+//	NAME=sleep:MS   sleep MS milliseconds
+//	NAME=kill       terminate this process with SIGKILL
+package verifhook
+
+import (
+	"os"
+	"strconv"
+	"strings"
+	"syscall"
+	"time"
+)
+
+func Point(name string) {
+	spec := os.Getenv("VERIF_POINTS")
+	if spec == "" {
+		return
+	}
+	for _, entry := range strings.Split(spec, ",") {
+		n, action, found := strings.Cut(entry, "=")
+		if !found || n != name {
+			continue
+		}
+		kind, arg, _ := strings.Cut(action, ":")
+		switch kind {
+		case "gate":
+			os.WriteFile(arg+".at", []byte(strconv.Itoa(os.Getpid())), 0644)
+			for {
+				if _, err := os.Stat(arg); err != nil {
+					break
+				}
+				time.Sleep(2 * time.Millisecond)
+			}
+		case "sleep":
+			ms, _ := strconv.Atoi(arg)
+			time.Sleep(time.Duration(ms) * time.Millisecond)
+		case "kill":
+			syscall.Kill(os.Getpid(), syscall.SIGKILL)
+			time.Sleep(time.Hour)
+		}
+	}
+}
